@@ -281,6 +281,13 @@ func instr(in ssa.Instruction) J {
 		j["valtype"] = typeID(x.Val.Type())
 	case *ssa.DebugRef:
 		j["op"] = "DebugRef"
+	case *ssa.TypeAssert:
+		j["op"] = "TypeAssert"
+		j["x"] = val(x.X)
+		j["asserted"] = typeID(x.AssertedType)
+		j["commaok"] = x.CommaOk
+		_, isIface := x.AssertedType.Underlying().(*types.Interface)
+		j["toiface"] = isIface
 	default:
 		j["op"] = "Unsupported"
 		j["go"] = fmt.Sprintf("%T", in)
